@@ -18,7 +18,7 @@ theorem C10_protected (rnd : Rat → Rat) (o : Oracle) (k : Nat) (globalDry : Bo
   intro e he
   have := scanGroup_entries rnd o k globalDry cfg st0 g view h nowMock nowReal e he
   cases this with
-  | metrics id b => rfl
+  | metrics n hn b => rfl
   | force hf =>
     refine removalEntry_backed (c := ⟨globalDry, cfg, st0, g, view, nowMock, nowReal⟩) (fun n hn => ?_) hf
     obtain ⟨_, hin, _, hf, _⟩ := forceCands_mem hn
